@@ -29,14 +29,14 @@ CHECKS = {
             "fixed point and order preservation on pairs 1us..1y apart. Search, not proof.",
             "Trusts oracle/tsref.py (proleptic Gregorian integer arithmetic, self-tested) and pytz for zone offsets.",
             "DESIGN.md section 2, C15"),
-    "C03": ("exploration", "model-driven generation of specification-valid objects, strict parse, model-guided content comparison",
+    "C03": ("exploration", "model-driven generation of specification-valid objects, strict parse, model-guided content comparison; kept cases re-run in fresh processes in four orders (history oracle for state carried across calls)",
             "Objects of every implemented type of STIX 2.0/2.1 are built by construction from a frozen, hand-audited specification model "
             "(optional subsets, co-constraints, vocabularies, reference targets, boundary/falsy values, selectors on any path), pre-checked by "
             "an independent validator, then parsed strictly alone / in a bundle / inside an observed-data container and compared property by "
             "property with the re-serialization. Search over the model's space, not proof; bounded by my reading of the specification.",
             "Trusts specmodel/v20.json, v21.json (transcription audited from memory; specmodel/AUDIT.md) and oracle/validator.py.",
             "DESIGN.md section 2, C03"),
-    "C01": ("exploration", "generated objects x drawn option sets; round-trip, byte-identity and cross-option metamorphic relations",
+    "C01": ("exploration", "generated objects x drawn option sets; round-trip, byte-identity and cross-option metamorphic relations; kept cases re-run in fresh processes in four orders after content of not-yet-registered types was parsed (history oracle)",
             "Objects of every type (parsed from dict/text or built through constructors with datetime values and clock-supplied defaults, "
             "with custom properties / unregistered top-level extensions, bundles incl. empty and mixed-version) are serialized under the 4 "
             "corner option sets plus 3-6 drawn from the full 128-combination product; parse-back class and equality, byte-for-byte "
@@ -44,7 +44,7 @@ CHECKS = {
             "against the frozen model are asserted. Search, not proof.",
             "Equality is the library's Mapping equality plus byte identity; specification order/defaults from the frozen model.",
             "DESIGN.md section 2, C01"),
-    "C02": ("fault_enumeration", "systematic single-point corruption of generated valid objects (fault enumeration) + independent spec validator on whatever is accepted",
+    "C02": ("fault_enumeration", "systematic single-point corruption of generated valid objects (fault enumeration) + independent spec validator on whatever is accepted; kept cases re-run in fresh processes in four orders (history oracle)",
             "For every type of both versions, several generated base objects are subjected to every targeted single-point corruption the "
             "engine derives (bounds, vocabularies incl. dictionary-guided entries, reference target types, identifier/timestamp catalogues, "
             "co-constraints, unknown properties ...) and a stratified sample of the generic wrong-kind replacements (all of them in the "
@@ -53,7 +53,7 @@ CHECKS = {
             "validator (frozen spec model) accepts.",
             "Only specification rules held with high confidence are switched on (specmodel/AUDIT.md); stix2patterns validates patterns.",
             "DESIGN.md section 2, C02"),
-    "C04": ("fault_enumeration", "enumeration of custom-content injection sites on generated objects x switch x entry point; oracle = refusal / has_custom vs strict re-parse",
+    "C04": ("fault_enumeration", "enumeration of custom-content injection sites on generated objects x switch x entry point (every store input form); oracle = refusal / has_custom vs strict re-parse; kept cases re-run in fresh processes in four orders (history oracle)",
             "For every type of both versions, generated base objects receive every injection the engine derives (custom properties at top "
             "level, in each embedded object, registered extension and container member; unregistered extensions; custom and foreign-version "
             "hash names; references to unregistered types; unregistered observable members and marking types; the custom_properties content "
